@@ -84,7 +84,7 @@ func Run(o Opts) (*Result, error) {
 	if err := os.MkdirAll(dir, 0o755); err != nil {
 		return nil, err
 	}
-	if !o.Keep {
+	if !o.Keep && os.Getenv("VERIF_KEEP") == "" {
 		defer os.RemoveAll(dir)
 	}
 	ents, err := os.ReadDir(SpecDir)
@@ -199,7 +199,14 @@ func Run(o Opts) (*Result, error) {
 		res.OK = true
 	}
 	if !res.OK && res.Violated == "" && !res.TimedOut {
-		return res, fmt.Errorf("tlc failed (%v): %s", runErr, tail(out, 3000))
+		msg := tail(out, 3000)
+		if i := strings.Index(out, "Error:"); i >= 0 {
+			msg = out[i:]
+			if len(msg) > 3000 {
+				msg = msg[:3000]
+			}
+		}
+		return res, fmt.Errorf("tlc failed (%v): %s", runErr, msg)
 	}
 	return res, nil
 }
